@@ -11,7 +11,7 @@ steps:
     start c | handle c | finish c | crash c | cancel c          (pool job steps, simos_threads)
 
 Injection points (kind -> main-thread operation that follows):
-    notify (loop top) . select . accept . lock:on_client_socket_readable . submit . addcb .
+    top (the `while self.alive` test) . notify . select . accept . lock:on_client_socket_readable . submit . addcb .
     wait0 . wait1 . parent . lock:murder_keepalived (pop / put back / unregister) . close (reaper) .
     shutdown . pclose . lclose . waitall
 
@@ -113,7 +113,7 @@ class Sim:
         real_tmp = base.WorkerTmp
         base.WorkerTmp = lambda cfg: TmpStub(self)
         try:
-            w = g.ThreadWorker(1, os.getppid(), [self.net.listener], None, 30, cfg, FakeLog())
+            w = self.worker_class(g)(1, os.getppid(), [self.net.listener], None, 30, cfg, FakeLog())
         finally:
             base.WorkerTmp = real_tmp
         w.wsgi = app
@@ -124,6 +124,24 @@ class Sim:
         w.pid = 4242
         self.worker = w
         return w
+
+    def worker_class(self, g):
+        """the real ThreadWorker; the only addition is that reading `alive` in run() (the
+        `while self.alive` test) is an injection point, so that TERM can land before the test"""
+        sim = self
+
+        class SimThreadWorker(g.ThreadWorker):
+            def _get_alive(w):
+                if sys._getframe(1).f_code.co_name == "run":
+                    sim.ip("top")
+                return w.__dict__.get("_alive", True)
+
+            def _set_alive(w, v):
+                w.__dict__["_alive"] = v
+
+            alive = property(_get_alive, _set_alive)
+
+        return SimThreadWorker
 
     def _parent_alive(self):
         self.ip("parent")
@@ -190,6 +208,10 @@ class Sim:
     def ip(self, kind, c=None):
         if self.busy:
             return None
+        if kind == "top":
+            self.in_murder = False
+        if kind == "close" and not self.in_murder:
+            return None          # a close outside the reaper (inline completion callback)
         self.busy = True
         try:
             self.nip += 1
@@ -441,7 +463,12 @@ class ScriptSched(BaseSched):
                     sim.apply(["tick", 0])
             return None
         want, steps = self.script[self.i]
-        match = (want == kind) or (want == "loop" and kind in ("select", "wait1"))
+        match = (want == kind) or (want == "loop" and kind in ("select", "wait1")) \
+            or (want == "sweep" and kind in ("wait0", "wait1"))
+        self.stall = 0 if match else getattr(self, "stall", 0) + 1
+        if self.stall > 80:          # the item's injection point does not occur on this path: drop it
+            self.i += 1
+            self.stall = 0
         if match:
             self.i += 1
             for s in steps:
@@ -491,4 +518,132 @@ def run_replay(params, decisions):
     sched = ReplaySched(decisions)
     r = Sim(params, sched).run()
     r["diverged"] = sched.diverged
+    return r
+
+
+# ---------------------------------------------------------------------------------------------
+# spec -> code: replay a TLC behaviour of specs/GThread.tla
+# ---------------------------------------------------------------------------------------------
+
+MAIN_IP = {"Notify": "top", "LoopExit": "top", "Gate": "notify", "SelectReturn": "select", "Accept": "accept",
+           "Readable": "lock:on_client_socket_readable", "Submit": "submit", "AddCallback": "addcb",
+           "FuturesSweep": "wait0", "FullWait": "wait1", "ParentCheck": "parent",
+           "MurderPop": "lock:murder_keepalived", "MurderPutBack": "lock:murder_keepalived",
+           "MurderUnreg": "lock:murder_keepalived", "MurderClose": "close", "ShutdownPool": "shutdown",
+           "ClosePoller": "pclose", "CloseListeners": "lclose", "GraceWait": "waitall"}
+ENV_MAP = {"ClientConnect": "connect", "ClientSend": "send", "ClientClose": "leave", "Tick": "tick",
+           "Term": "term", "ParentDies": "pdead", "Pick": "start", "HandleDone": "handle",
+           "JobCrash": "crash", "FinishKeep": "finish", "FinishClose": "finish",
+           "FinishException": "finish", "Cancel": "cancel"}
+
+
+def _fn(v, n):
+    """TLC prints a function over 1..n as a tuple"""
+    return {i + 1: v[i] for i in range(len(v))} if isinstance(v, list) else v
+
+
+def compare(proj, st):
+    """projected real state vs TLC state; returns a description of the first difference"""
+    n = len(st["closed"])
+    keep = list(st["keep"])
+    ttl = _fn(st["ttl"], n)
+    if proj["nr"] != st["nrConns"]:
+        return "nr_conns %s vs model %s" % (proj["nr"], st["nrConns"])
+    if [k[0] for k in proj["keep"]] != keep:
+        return "_keep %s vs model %s" % ([k[0] for k in proj["keep"]], keep)
+    for c, t in proj["keep"]:
+        if max(0, t) != ttl[c]:
+            return "deadline of %d: %s ticks left vs model %s" % (c, t, ttl[c])
+    futs = [f["c"] for f in st["futs"]]
+    if proj["futures"] != futs:
+        return "futures %s vs model %s" % (proj["futures"], futs)
+    reg = sorted(st["reg"]["__set__"]) if isinstance(st["reg"], dict) else sorted(st["reg"])
+    if [c for c in proj["reg"] if c != 0] != reg:
+        return "registered %s vs model %s" % (proj["reg"], reg)
+    closed = sorted(c for c, v in _fn(st["closed"], n).items() if v)
+    if proj["closed"] != closed and st["mpc"] != "gone":
+        return "closed %s vs model %s" % (proj["closed"], closed)
+    if proj["alive"] != st["alive"]:
+        return "alive %s vs model %s" % (proj["alive"], st["alive"])
+    return None
+
+
+class BehaviourSched(BaseSched):
+    def __init__(self, beh):
+        super().__init__()
+        # beh: [(action, state)] with state["last"] = [name, c, x]; drop the initial state
+        self.steps = [(st["last"][0], st["last"][1], st["last"][2], st) for a, st in beh if st.get("last")]
+        self.i = 0
+        self.drift = None
+        self.matched = 0
+        self.compared = 0
+
+    def fail(self, sim, msg):
+        if self.drift is None:
+            self.drift = "step %d (%s): %s" % (self.i, self.steps[self.i][0] if self.i < len(self.steps) else "end", msg)
+
+    def check(self, sim, st):
+        d = compare(sim.proj(), st)
+        self.compared += 1
+        if d:
+            self.fail(sim, d)
+        return d is None
+
+    def at(self, sim, kind, c):
+        if self.phase != "run":
+            self.tail(sim, kind)
+            return None
+        if kind == "lock:accept" and self.drift is None and self.i < len(self.steps):
+            return None      # inside the model's atomic Accept (accept + count + register)
+        if self.drift is not None or self.i >= len(self.steps):
+            # behaviour exhausted (or lost): finish the run with the common tail
+            if sim.termed:
+                self.phase = "stop"
+                self.tail(sim, kind)
+            elif kind == "notify":
+                self.start_tail(sim)
+            elif sim.blocked(kind) and not sim.in_murder:
+                sim.apply(["tick", 0])
+            return None
+        if self.i > 0 and not self.check(sim, self.steps[self.i - 1][3]):
+            return None
+        while self.i < len(self.steps):
+            name, cc, x, st = self.steps[self.i]
+            if name in ENV_MAP:
+                step = [ENV_MAP[name], cc] + ([x] if name == "ClientSend" else [])
+                if not sim.is_enabled(step):
+                    self.fail(sim, "environment step %r not enabled in the real run" % (step,))
+                    return None
+                self.i += 1
+                sim.apply(step)
+                if not self.check(sim, st):
+                    return None
+                continue
+            if name == "Exit":
+                self.i += 1
+                continue
+            want = MAIN_IP.get(name)
+            if want != kind:
+                self.fail(sim, "model takes %s (injection point %s) but the worker is at %s" % (name, want, kind))
+                return None
+            self.i += 1
+            self.matched += 1
+            if name == "SelectReturn":
+                order = list(st["ready"])
+                real = sorted(k.fileobj.cid for k in sim.poller.ready_keys())
+                if sorted(order) != real:
+                    self.fail(sim, "ready set %s vs model %s" % (real, sorted(order)))
+                return order
+            return None
+        return None
+
+
+def run_behaviour(params, beh):
+    sched = BehaviourSched(beh)
+    r = Sim(params, sched).run()
+    r["drift"] = sched.drift
+    r["matched"] = sched.matched
+    r["compared"] = sched.compared
+    r["beh_len"] = len(sched.steps)
+    r["beh_used"] = sched.i
     return r
